@@ -125,6 +125,36 @@ def op_edge_rows(spec, a, b):
     return False
 
 
+def op_edge_noncontig(spec, a, b):
+    """Move the last edge of one parent's block behind one or more later blocks of parents with
+    the SAME time (A B A, A B C A, ...): parents stay time-sorted but are no longer contiguous."""
+    E = spec["edges"]
+    times = [F(nd[1]) for nd in spec["nodes"]]
+    blocks = []  # [parent, first, last] in table order
+    for i, e in enumerate(E):
+        if blocks and blocks[-1][0] == e[2]:
+            blocks[-1][2] = i
+        else:
+            blocks.append([e[2], i, i])
+    cands = []
+    for bi, (p, lo, hi) in enumerate(blocks):
+        if hi > lo:
+            run = 0
+            while bi + 1 + run < len(blocks) and times[blocks[bi + 1 + run][0]] == times[p]:
+                run += 1
+            if run >= 1:
+                cands.append((bi, run))
+    if not cands:
+        return False
+    bi, run = cands[a % len(cands)]
+    skip = 1 + (b % run)  # how many equal-time blocks to jump over
+    p, lo, hi = blocks[bi]
+    dest = blocks[bi + skip][2]  # after the last edge of that block
+    row = E.pop(hi)
+    E.insert(dest, row)
+    return True
+
+
 def op_edge_overlap(spec, a, b):
     # extend an edge to the right so it overlaps the next edge of the same (parent, child) or child
     E = spec["edges"]
@@ -359,6 +389,7 @@ OPS = [
     ("edge_time", op_edge_time, 2),
     ("edge_rows", op_edge_rows, 4),
     ("edge_overlap", op_edge_overlap, 2),
+    ("edge_noncontig", op_edge_noncontig, 3),
     ("node", op_node, 3),
     ("site", op_site, 4),
     ("mutation", op_mutation, 8),
